@@ -121,7 +121,7 @@ Proof. intros prec emax Hprec Hmax lib Ul Ur d a b t E St Fa. exact (mixed_lt_se
    in both feature flavours (Gen/OpsSrc.v is regenerated from the source on every run) ---- *)
 From Coq Require Import String.
 From UomV Require Import Model.OpsSrc Gen.OpsSrc Spec.OpsTie.
-Definition is_comparison (e : op_src) : bool := existsb (String.eqb (os_fn e)) ["eq"; "lt"; "le"; "gt"; "ge"; "partial_cmp"]%string.
+Definition is_comparison (e : op_src) : bool := existsb (String.eqb (os_fn e)) ["eq"%string; "lt"%string; "le"%string; "gt"%string; "ge"%string; "partial_cmp"%string].
 Theorem c10_comparison_sources_call_their_own_operator :
   forallb (fun e => negb (is_comparison e) || shape_ok e) src_ops = true
   /\ List.length (filter is_comparison src_ops) = 12%nat.
@@ -133,4 +133,10 @@ From UomV Require Import Model.DelegSrc Gen.DelegSrc Spec.DelegTie.
 Theorem c10_max_min_sources_are_direct :
   forallb (fun e => negb (String.eqb (dl_fn e) "max" || String.eqb (dl_fn e) "min") || deleg_ok e) src_delegations = true
   /\ List.length (filter (fun e => String.eqb (dl_fn e) "max" || String.eqb (dl_fn e) "min") src_delegations) = 4%nat.
+Proof. split; vm_compute; reflexivity. Qed.
+
+(* Hash::hash and Ord::cmp of the source forward to the storage type's on the stored value(s) *)
+Theorem c10_hash_and_cmp_sources_forward :
+  forallb (fun e => negb (in_list (dl_fn e) ["hash"%string; "cmp"%string]) || deleg_ok e) src_delegations = true
+  /\ covers src_delegations "src/system.rs" ["hash"%string; "cmp"%string] = true.
 Proof. split; vm_compute; reflexivity. Qed.
